@@ -100,7 +100,7 @@ def main():
     if rc != 0:
         print("patch does not apply:", out)
         reset(); return 1
-    rcb, outb = sh(["go", "build", "./..."])
+    rcb, outb = sh(["go", "build", "./cmd/...", "./internal/..."])
     log["build_with_change"] = {"rc": rcb, "tail": outb[-600:]}
     rc1, out1 = sh("timeout 1500 sh -c %s" % json.dumps(demo), shell=True)
     log["demo_with_change"] = {"rc": rc1, "tail": out1[-800:]}
